@@ -157,9 +157,6 @@ end
 
 /-! ### Tables the structural extraction is compared with -/
 
-/-- `OverwriteExistingFile` (interface.py): member names and values, in source order. -/
-def overwriteModes : List (String × Int) := [("ASK_USER_INPUT", 0), ("ALWAYS", 1), ("SKIP", 2)]
-
 /-- One state access of a method, in source order: `(kind, target, what)`. -/
 abbrev Access := String × String × String
 
